@@ -73,6 +73,23 @@ func generate(w *mon.W) {
 			}
 		}
 	}
+	// growing buffers: every prefix of a long source, in order (each call extends the previous one)
+	{
+		var long strings.Builder
+		for _, p := range multi {
+			long.WriteString(p)
+			long.WriteString(";\n")
+		}
+		src := long.String() + "T | where msg == 'disk full;retry' | count; `a b;c` | take 1 // x;y\n;"
+		step := w.Pick(3, 1)
+		for i := 1; i <= len(src) && !w.Stopped(); i += step {
+			s := src[:i]
+			// not through w.Do's sharding: the sequence matters, every worker runs a slice of it
+			if (i/97)%w.NShards == w.Shard {
+				w.DoOwned("grow|"+s, func(r *mon.R) { Check(s, r) })
+			}
+		}
+	}
 	progs := append(append([]string{}, multi...), gen.Seeds()...)
 	for _, p := range progs {
 		for i := 0; i <= len(p); i++ {
